@@ -275,6 +275,7 @@ func init() {
 	planRegistry["C07"] = planC07
 	planRegistry["C10"] = planC10
 	planRegistry["C13"] = planC13
+	planRegistry["C14"] = planC14
 	planRegistry["C09"] = planC09
 	planRegistry["C16"] = planC16
 	planRegistry["C01"] = planC01
@@ -685,5 +686,77 @@ func planC16(tier string) *Plan {
 	p.MustAssert = []string{"C16.O1.defer", "C16.O1.propose", "C16.O1.forced", "C16.O2.defer", "C16.O2.notify", "C16.O2.ignored", "C16.O4.nosubscribe", "INV"}
 	p.Outside = append(p.Outside, "THE NETWORK-LEVEL CLAIM IS NOT DECIDED: spacing of consecutive proposals on a fault-free synchronous network of 1..7 nodes under all delivery orders needs whole-network runs in virtual time; only the local timer algebra below is solver-decided")
 	p.Explanation = "Local timer algebra of the dynamic-block-time extension on the real OnTimeout/OnNewTransaction, one symbolic step from every Inv state at view 0 (N=4, MaxTimePerBlock >= TimePerBlock symbolic): an idle primary whose timer expires with an empty pool does not propose, subscribes once and re-arms for max-min; its next expiry or a new-transaction notification produces the proposal in that very call; a backup whose timer expires with an empty pool does not ask for a view change, subscribes and re-arms for 2*max-2*min (non-negative); a notification re-arms it for 2*min without a ChangeView; a notification without an active subscription changes nothing. With the extension not configured no path subscribes (SubscribeForTxs is nil: a call would be a panic, which is a violation here)."
+	return p
+}
+
+func planC14(tier string) *Plan {
+	want := []string{"C14"}
+	p := &Plan{Property: "C14", Tier: tier, Patterns: []string{"."}}
+	am := []int{0}
+	if tier == "thorough" {
+		am = []int{0, 1}
+	}
+	add := func(pm map[string]int) {
+		base := map[string]int{"n": 4, "prim": 0, "maxtpb": 0, "ntx": 0, "txmask": 0, "ncache": 0, "npool": 0, "rtt": 0, "mntx": 0}
+		for k, v := range pm {
+			base[k] = v
+		}
+		p.Jobs = append(p.Jobs, &Job{Pkg: dbftPkg, Entry: "H_c14", Solver: "cvc5-int", Want: want, BudgetS: 1200, Timeout: 60000, Params: base})
+	}
+	for _, amev := range am {
+		// (a) the primary proposes: timestamp from the clock, prepareSentTime, timer
+		for _, mx := range []int{0, 1} {
+			for _, np := range []int{0, 1} {
+				add(map[string]int{"my": 0, "req": 0, "amev": amev, "api": apiTimeout, "maxtpb": mx, "npool": np})
+			}
+		}
+		add(map[string]int{"my": 0, "req": 0, "amev": amev, "api": apiNewTransaction, "maxtpb": 1, "npool": 1})
+		// (b) the primary receives a response: round-trip estimate
+		for _, sp := range []int{2, 3, 4} {
+			add(map[string]int{"my": 0, "req": 1, "amev": amev, "api": apiPrepareResponse, "split": sp})
+		}
+		// (c) view change: the new view's timer is computed from lastBlockTime and the rtt average
+		for _, my := range []int{1, 3} {
+			add(map[string]int{"my": my, "req": 0, "amev": amev, "api": apiChangeView})
+		}
+		// (d) timeouts of a backup: ChangeView / RecoveryRequest timestamps, timers
+		for _, req := range []int{0, 1} {
+			add(map[string]int{"my": 1, "req": req, "amev": amev, "api": apiTimeout})
+		}
+		add(map[string]int{"my": 1, "req": 0, "amev": amev, "api": apiTimeout, "maxtpb": 1})
+		// (e) a backup accepts the proposal: lastBlockTime is taken from the clock
+		add(map[string]int{"my": 1, "req": 0, "amev": amev, "api": apiPrepareRequest})
+		// (f) re-initialisation: timer from lastBlockTime, lastBlockTimestamp from the argument
+		for _, my := range []int{0, 1} {
+			add(map[string]int{"my": my, "req": 1, "amev": amev, "api": apiReset})
+		}
+	}
+	if tier == "thorough" {
+		for _, sp := range []int{2, 3, 4} {
+			add(map[string]int{"my": 0, "req": 1, "amev": 0, "api": apiPrepareResponse, "split": sp, "rtt": 1})
+		}
+		add(map[string]int{"my": 1, "req": 0, "amev": 0, "api": apiChangeView, "rtt": 1})
+	}
+	sort.SliceStable(p.Jobs, func(a, b int) bool { return jobWeight(p.Jobs[a]) > jobWeight(p.Jobs[b]) })
+	lj := job("H_c14_lemma", "cvc5-int", "tsinc", 0)
+	lj.Timeout = 60000
+	p.Jobs = append(p.Jobs, lj)
+	p.MustCover = []string{"C14.lemma", "C14.world1", "C14.world2", "C14.timer", "C14.broadcast", "C14.proposed", "C14.end"}
+	p.MustAssert = []string{"C14.lemma.truncation", "C14.broadcast.ts", "C14.events.count", "C14.events.kind", "C14.timer.duration", "C14.broadcast.payload", "C14.state.scalars", "C14.state.tables", "C14.state.times", "C14.state.timestamp", "C14.state.rtt", "C14.state.timer"}
+	p.Assumptions = append([]string{
+		"the offset between the two clocks is ANY multiple of the timestamp increment up to 2^50 ns (13 days; default increment 10^6 ns); clock readings and block timestamps below 2^61",
+		"world 2 is world 1 with every absolute time reference shifted (injected clock, lastBlockTime, prepareSentTime, lastBlockTimestamp, the Reset argument); durations, rtt estimates, stored payloads and callback results are identical",
+		"the machine's wall clock (time.Now, time.Since) is a fresh unrelated value at every reading in each world",
+		"random components (proposal nonce, signature randomiser) are not compared",
+		"when the node is the primary and has not proposed yet, no preparations/commits of other validators are stored (they would name or sign a proposal that has a different hash in the shifted world)",
+	}, append(append([]string{}, stepAssumptions...), commonAssumptions...)...)
+	p.Bounds = map[string]string{
+		"validators": "N = 4",
+		"steps":      "ONE API call in each world from an arbitrary pair of related Inv states (relational inductive step: related pre-states give equal events and related post-states, hence whole scripted runs)",
+		"apis":       "OnTimeout, OnNewTransaction, OnReceive(PrepareRequest/PrepareResponse/ChangeView), Reset; the APIs whose code reads a clock or computes with stored instants",
+		"rtt_table":  "quick: the 70-entry sample table is all zeros (symbolic average and index); thorough: symbolic table",
+	}
+	p.Outside = []string{"OnReceive(Commit/PreCommit/RecoveryRequest/RecoveryMessage) and OnTransaction (no clock reading on their own paths beyond what the covered callees do)", "offsets that are not multiples of the timestamp increment (the proposal timestamp is truncated to the increment, so such a shift is not an invariance of the specification itself)", "N other than 4"}
+	p.Explanation = "Relational symbolic execution of the real code: two worlds that differ only by a constant offset of every absolute time reference run the same API call with the same arguments and callback results; readings of the machine's wall clock are unconstrained fresh values in each world. The solver proves, for every pair of related pre-states: same sequence of broadcasts (self-made timestamps shifted by the offset, everything else equal), same Timer.Reset/Extend durations, and related post-states (instants shifted, round-trip estimates and all other fields equal). Any dependence on the wall clock or on the absolute epoch makes one of these assertions satisfiable; the model is replayed natively (the two native runs read the real wall clock at different instants)."
 	return p
 }
